@@ -186,7 +186,7 @@ Definition hstep_enabled (s : state) (c : conn) (h : hstep) : bool :=
   | HBarrier b => mem_nat b (released s)
   | HPanic => true
   | HWrite => can_write c
-  | HHandshake => match input c with IHello :: _ => true | _ => interrupted c || eof c end
+  | HHandshake => match input c with IHello :: _ | IBad :: _ => true | _ => interrupted c || eof c end
   end.
 
 (* ---------------------------------------------------------------- *)
@@ -246,7 +246,8 @@ Definition conn_step (cfg : config) (s : state) (c : conn) : option (conn * effe
     | HPanic => if recovery cfg then Some (set_pc c (CTeardown (teardown_of cfg)), ENone) else Some (c, EDie)
     | HHandshake =>
       (* consumes the client's handshake bytes when they are there *)
-      let inp := match input c with IHello :: r => r | i => i end in
+      (* (bytes that are not a TLS ClientHello are consumed as well: the handshake fails at once) *)
+      let inp := match input c with IHello :: r | IBad :: r => r | i => i end in
       Some ({| cid := cid c; pc := CInline k rest; nreq := nreq c; nread := nread c; input := inp; eof := eof c; stalled := stalled c;
                interrupted := interrupted c; inflight := inflight c; hs := hs c; started := started c;
                ended := ended c; unbind_seen := unbind_seen c; read_after_unbind := read_after_unbind c;
